@@ -190,7 +190,8 @@ def decOp (e : SExp) : Option Op :=
   match e with
   | .list [.sym "enterObj", o, c] => do pure (.enterObj (← o.toNat?) (← c.toNat?))
   | .list [.sym "exitObj", o] => do pure (.exitObj (← o.toNat?))
-  | .list (.sym "enterCm" :: cbs) => do pure (.enterCm (← cbs.mapM SExp.toNat?))
+  | .list (.sym "buildCm" :: h :: cbs) => do pure (.buildCm (← h.toNat?) (← cbs.mapM SExp.toNat?))
+  | .list [.sym "enterCm", h] => do pure (.enterCm (← h.toNat?))
   | .list [.sym "exitCm", h] => do pure (.exitCm (← h.toNat?))
   | .list [.sym "register", c] => do pure (.register (← c.toNat?))
   | .list [.sym "unregister", c] => do pure (.unregister (← c.toNat?))
@@ -205,6 +206,8 @@ partial def decProg (e : SExp) : Option Prog :=
   | .list [.sym "seq", p, q] => do pure (.seq (← decProg p) (← decProg q))
   | .list [.sym "withCm", cbs, b] => do pure (.withCm (← cbs.toNats?) (← decProg b))
   | .list [.sym "withObj", c, b] => do pure (.withObj (← c.toNat?) (← decProg b))
+  | .list [.sym "build", h, cbs] => do pure (.build (← h.toNat?) (← cbs.toNats?))
+  | .list [.sym "withH", h, b] => do pure (.withH (← h.toNat?) (← decProg b))
   | .list [.sym "register", c] => do pure (.register (← c.toNat?))
   | .list [.sym "unregister", c] => do pure (.unregister (← c.toNat?))
   | .list [.sym "get"] => some .get
